@@ -147,9 +147,9 @@ class Native:
         except OSError: pass
         open(os.path.join(outdir, 'valgrind.log'), 'w').write(outp)
         open(os.path.join(outdir, 'replay.sh'), 'w').write(
-            '#!/bin/sh\n# re-run under valgrind memcheck (uninitialised reads): gcc -O0 build of /repo/src\nset -e\nd=$(mktemp -d)\n'
+            '#!/bin/sh\n# re-run under valgrind memcheck (uninitialised reads): gcc -O0 build of /repo/src\nset -e\ncd "$(dirname "$0")"\nd=$(mktemp -d)\n'
             'for f in /repo/src/vna*.c; do case $f in *example*) continue;; esac; gcc -w -O0 -g -DHAVE_CONFIG_H -I/repo -I/repo/src -c $f -o $d/$(basename $f .c).o; done\n'
-            'gcc -w -O0 -g -I/repo/src -I/repo %s.c $d/*.o -lyaml -lm -o $d/replay\ncd $(dirname $0) && valgrind -q --error-exitcode=9 $d/replay; rc=$?; rm -rf $d; exit $rc\n' % name)
+            'gcc -w -O0 -g -I/repo/src -I/repo %s.c $d/*.o -lyaml -lm -o $d/replay\nset +e\nvalgrind -q --error-exitcode=9 $d/replay; rc=$?; rm -rf $d; exit $rc\n' % name)
         os.chmod(os.path.join(outdir, 'replay.sh'), 0o755)
         if p.returncode == 9 or 'uninitialised' in outp: return True, 'valgrind memcheck: use of uninitialised value', outp
         return False, 'valgrind run is clean', outp
@@ -181,9 +181,9 @@ class Native:
             except OSError: pass
         open(os.path.join(outdir, 'native.log'), 'w').write(outp)
         open(os.path.join(outdir, 'replay.sh'), 'w').write(
-            '#!/bin/sh\n# re-run: builds the library sources of /repo with clang ASan/UBSan and runs %s.c\nset -e\nd=$(mktemp -d)\n'
+            '#!/bin/sh\n# re-run: builds the library sources of /repo with clang ASan/UBSan and runs %s.c\nset -e\ncd "$(dirname "$0")"\nd=$(mktemp -d)\n'
             'for f in /repo/src/vna*.c; do case $f in *example*) continue;; esac; clang-14 -w -O0 -g -fsanitize=address,undefined -DHAVE_CONFIG_H -I/repo -I/repo/src -c $f -o $d/$(basename $f .c).o; done\n'
-            'clang-14 -w -O0 -g -fsanitize=address,undefined -I/repo/src -I/repo %s.c $d/*.o -lyaml -lm -o $d/replay\ncd $(dirname $0) && $d/replay; rc=$?; rm -rf $d; exit $rc\n' % (name, name))
+            'clang-14 -w -O0 -g -fsanitize=address,undefined -I/repo/src -I/repo %s.c $d/*.o -lyaml -lm -o $d/replay\nset +e\n$d/replay; rc=$?; rm -rf $d; exit $rc\n' % (name, name))
         os.chmod(os.path.join(outdir, 'replay.sh'), 0o755)
         for pat, how in (('AddressSanitizer', 'AddressSanitizer report'), ('LeakSanitizer', 'LeakSanitizer report'), ('runtime error:', 'UBSan report'),
                          ('VF-ASSERT-FAIL', 'native assertion of the property failed'), ('Assertion', 'library assert()')):
